@@ -78,6 +78,8 @@ const (
 	KActor            // scripted Byzantine action (A = kind, B, C = parameters)
 	KTimeoutAll       // every live honest stack's timer fires
 	KDeliverTo        // deliver the oldest deliverable message addressed to stack (B mod #stacks)
+	KDropCross        // every in-flight message that crosses the current partition is lost (a partition that drops instead of holding)
+	KTimeoutPart      // the timers of all live stacks in partition group (B mod 3) fire
 	kCount
 )
 
@@ -724,6 +726,22 @@ func (cl *Cluster) Apply(s Step) {
 		}
 	case KBurst:
 		cl.Burst(1 + mod(s.C, 6))
+	case KDropCross:
+		if len(cl.Cfg.ByView) > 0 {
+			return
+		}
+		for i := len(cl.Pool) - 1; i >= 0; i-- {
+			if m := cl.Pool[i]; cl.Part[m.From] != cl.Part[m.To] {
+				cl.remove(i)
+				cl.Faults["drop"]++
+			}
+		}
+	case KTimeoutPart:
+		for _, st := range cl.liveStacks() {
+			if cl.Part[st.Idx] == mod(s.B, 3) {
+				cl.FireTimeout(st)
+			}
+		}
 	case KActor:
 		if cl.Actor != nil {
 			cl.Actor.Act(s.A, s.B, s.C)
